@@ -33,11 +33,23 @@ def encode_as_wav(base, code, bk_filename, turbo=False):
             + env.PAUSE
             + encode_data_bits(code, env)
             + (env.PAUSE if turbo else b"")
-            + encode_data_bits(struct.pack("<H", sum(code) % (2 ** 16 - 1)), env)
+            + encode_data_bits(struct.pack("<H", checksum(code)), env)
             + env.EOF
         ),
         env.sample_rate
     )
+
+
+def checksum(data):
+    # The BK monitor adds each byte to a 16-bit sum and adds the carry back in
+    # (end-around carry). That equals the sum modulo 65535, except that a
+    # non-zero sum divisible by 65535 gives 0xffff, not 0.
+    total = 0
+    for byte in data:
+        total += byte
+        if total > 0xffff:
+            total = (total & 0xffff) + 1
+    return total
 
 
 def encode_data_bits(data, env):
